@@ -28,7 +28,7 @@ type C14 struct{}
 
 const c14Unit = 120 * time.Millisecond // one model time unit
 
-func (C14) Timeout() time.Duration { return 180 * time.Second }
+func (C14) Timeout() time.Duration { return 45 * time.Second }
 
 var c14Keys = []string{"a", "b", "a/b", "a/c", "b/a", "k", "a/b/c", "z", "a%2F", "sp ace", "é", "a/", "__x"}
 
@@ -38,6 +38,25 @@ func (C14) Generate(rng *rand.Rand, tier string) []core.Case {
 		n = 5000
 	}
 	var cases []core.Case
+	// a range delete above the tombstone threshold (100 keys) over ephemeral records, then a take-over
+	// and the end of the session
+	for v := 0; v < 2; v++ {
+		ops := []string{"s.create 1000"}
+		nk := 101 + rng.Intn(30)
+		for j := 0; j < nk; j++ {
+			ops = append(ops, fmt.Sprintf("s.put %s 0", core.Hex([]byte(fmt.Sprintf("big/%03d", j)))))
+		}
+		ops = append(ops, "s.dump", fmt.Sprintf("s.delrange %s %s", core.Hex([]byte("big/")), core.Hex([]byte("big/~"))), "s.dump")
+		for j := 0; j < 4; j++ {
+			ops = append(ops, fmt.Sprintf("s.put %s _", core.Hex([]byte(fmt.Sprintf("big/%03d", rng.Intn(nk))))))
+		}
+		if v == 0 {
+			ops = append(ops, "s.close 0", "s.dump")
+		} else {
+			ops = append(ops, "s.leaderchange", "s.dump", "s.close 0", "s.dump")
+		}
+		cases = append(cases, core.Case{Name: fmt.Sprintf("sess-large-range-%d", v), Ops: ops})
+	}
 	for i := 0; i < n; i++ {
 		timed := rng.Intn(8) == 0
 		race := !timed && rng.Intn(6) == 0
